@@ -151,6 +151,18 @@ Proof.
 Qed.
 Print Assumptions C04_saam_exact.
 
+(* ... and so does the vectorised copy of the formula used by the N-sample constructor SAAM(acc, mag).Q *)
+Theorem C04_saam_vectorised_exact : forall w x y z sa sm cd sd,
+  w*w + x*x + y*y + z*z = 1 ->
+  1/20 <= Rabs w -> 1/20 <= Rabs x -> 1/20 <= Rabs y -> 1/20 <= Rabs z ->
+  cd*cd + sd*sd = 1 -> 0 < cd -> 0 < sa -> 0 < sm ->
+  exists l, C04_saam_vec_R w x y z sa sm cd sd = Val l /\ (l = [w; -x; -y; -z] \/ l = [-w; - - x; - - y; - - z]).
+Proof.
+  intros w x y z sa sm cd sd Hq Hw Hx Hy Hz Hd Hc Ha Hm.
+  exact (saam_vec_exact w x y z sa sm cd sd (conj Hq (conj Hw (conj Hx (conj Hy Hz)))) (conj Hd Hc) Ha Hm).
+Qed.
+Print Assumptions C04_saam_vectorised_exact.
+
 (* the hypotheses are inhabited by a non-trivial attitude in general position, dip = atan(4/3), unequal scalings *)
 Example C04_nonvacuous :
   (1/2)*(1/2) + (1/2)*(1/2) + (1/2)*(1/2) + (1/2)*(1/2) = 1 /\ 1/20 <= Rabs (1/2) /\
